@@ -774,6 +774,8 @@ type c15G struct {
 	boards   int
 	noTriple bool
 	inStep   bool
+	noGlob   bool // after a steps block: a later steps block continues from the previous step, which was
+	// compiled before a glob declared in between; the flat program cannot place such a glob
 }
 
 var c15ObjNames = []string{"a", "b", "c", "d", "e", "f", "g", "h"}
@@ -1044,7 +1046,7 @@ func (g *c15G) stmt(env *c15Env) []*c15Decl {
 	default:
 		// a glob declared inside a step applies to that step (and the boards below it) only: the next step
 		// inherits its effects, not the rule; steps are generated without globs of their own
-		if !g.ext || g.inStep {
+		if !g.ext || g.inStep || g.noGlob {
 			p := g.newObjPath(env)
 			env.addObj(p)
 			return []*c15Decl{g.key(p, g.label(env), nil, false)}
@@ -1087,9 +1089,9 @@ func (g *c15G) vars(env *c15Env) *c15Decl {
 
 func (g *c15G) body(env *c15Env, depth int, root bool) []*c15Decl {
 	var ds []*c15Decl
-	saved := g.noTriple
-	g.noTriple = false
-	defer func() { g.noTriple = saved }()
+	saved, savedNG := g.noTriple, g.noGlob
+	g.noTriple, g.noGlob = false, false
+	defer func() { g.noTriple, g.noGlob = saved, savedNG }()
 	if g.r.Chance(0.45) {
 		ds = append(ds, g.vars(env))
 	}
@@ -1146,6 +1148,9 @@ func (g *c15G) body(env *c15Env, depth int, root bool) []*c15Decl {
 		}
 		if len(d.Boards) > 0 {
 			ds = append(ds, d)
+			if kind == "steps" {
+				g.noGlob = true
+			}
 		}
 		// declarations after the boards: not inherited by the boards above
 		if g.r.Chance(0.5) {
